@@ -476,6 +476,25 @@ DupD(f) == /\ faults > 0 /\ BagIn(f, netD) /\ BagCardinality(netD) < NetCap /\ n
 DupA(f) == /\ faults > 0 /\ BagIn(f, netA) /\ BagCardinality(netA) < NetCap /\ netA' = netA (+) One(f) /\ faults' = faults - 1
            /\ UNCHANGED <<submitted, delivered, sender, receiver, netD>>
 
+(* A hostile or broken peer: an acknowledgement frame the receiver model would never produce, handed to the sender.
+   The candidates sit around every guard of handle_ack_frame: group bases just before, at and just after the start
+   of the frame log and at its end, every non-empty bit pattern over three positions (so a group can span ids before
+   the log with only its in-log positions set), both nonce values, frame and packet window bases at and one beyond
+   the sender's own bounds.  HandleAck is the same operator that consumes genuine frames.  Used by the behaviour
+   generator (conformance under hostile input); the exhaustive configurations keep the peer honest. *)
+ForgedGroups ==
+    {<<>>} \cup {<<[base |-> b, bits |-> bs, nonce |-> n]>> :
+                    b \in {FSub(fLogBase, 2), FSub(fLogBase, 1), fLogBase, FAdd(fLogBase, 1), FSub(fNext, 1), fNext},
+                    bs \in (SUBSET {0, 1, 2}) \ {{}}, n \in BOOLEAN}
+ForgedAcks ==
+    {[t |-> "A", fbase |-> fb, pbase |-> pb, groups |-> g] :
+        fb \in {fWinBase, FAdd(fWinBase, 1), fNext, FAdd(fNext, 1)},
+        pb \in {sBase, PAdd(sBase, 1), sNext, PAdd(sNext, 1)},
+        g \in ForgedGroups}
+ForgeA(f) == /\ faults > 0 /\ faults' = faults - 1
+             /\ HandleAck(f)
+             /\ UNCHANGED <<submitted, delivered, receiver, netD, netA>>
+
 Nonces == IF FreeNonce THEN BOOLEAN ELSE {fNext % 2 = 0}
 
 Next ==
